@@ -8,7 +8,7 @@ META = {
     "level": "other",
     "rule_text": "R18.1 every read through std::unordered_map::operator[] (which default-inserts) of the index remapping is dominated "
                  "by a membership test, so an input rejected in pass 1 cannot be merged in pass 2 with index 0; R18.2 the remapped "
-                 "block_parameters_index is assigned before write_block(block); R18.3 each input is processed in its own try inside "
+                 "block_parameters_index is assigned before write_block(block); R18.7 a member-wise comparison of two values of one record type in the tools compares every data member (zero instances on the pinned tree; positive and negative control in tu/rule_controls.cpp); R18.3 each input is processed in its own try inside "
                  "the loop body in both passes, and the version check compares all three version members; R18.4 cdns-itemcount's "
                  "totals are sums of get_qr/aec/mm_count of each block returned before `end`, the per-block lines print those same "
                  "calls; R18.5 a block is rewritten relative to its own earliest time and parameters (time preservation). R18.2 remap-unconditional: the index rewrite sits only under the lookup test. R18.3 reference-from-first-readable: the reference preamble is assigned under a flag lowered in the same place, not under the position in the input list. R18.3 version check decided by truth table over the three equalities; the reference preamble may be taken member by member when all three version members are taken.",
@@ -479,3 +479,67 @@ def check(run):
     C08.check_order_independence(run, "R18.5", {br["key"]: consumption.analyse_full(br, facts)})
     run.floors.pop("R18.5", None)
     run.floor("R18.5", 8, "time-preservation obligations")
+    check_memberwise_equality(run, "R18.7")
+
+
+def memberwise_equality(facts, f):
+    """None if f is not a member-wise comparison of two objects of one record type; else (record name, missing members, compared)"""
+    ps = f.get("params") or []
+    if len(ps) != 2 or f.get("ret") != "bool" or f.get("body") is None:
+        return None
+    ts = [(p_.get("t") or "").replace("const ", "").replace("&", "").strip() for p_ in ps]
+    if ts[0] != ts[1] or ts[0] not in facts.records or not all((p_.get("t") or "").rstrip().endswith("&") for p_ in ps):
+        return None
+    rec = facts.records[ts[0]]
+    fields = [x["n"] for x in rec.get("fields", [])]
+    if len(fields) < 2:
+        return None
+    # only comparisons, conjunction / disjunction / negation, returns, and calls of other comparisons of this kind
+    for n in ir.walk(f["body"]):
+        k = n.get("k")
+        if k in ("While", "For", "Do", "RangeFor", "Throw", "New", "Lambda", "Try"):
+            return None
+        if k == "Bin" and (n.get("op") or "").endswith("=") and n.get("op") not in ("==", "!=", "<=", ">="):
+            return None
+    roots = [("p:%s" % p_["n"],) for p_ in ps]
+    used = []
+    for r_ in roots:
+        out = set()
+        for n in ir.walk(f["body"]):
+            if n.get("k") == "Member" and n.get("field"):
+                q_ = path(n)
+                if q_ and q_[:1] == r_ and len(q_) > 1:
+                    out.add(q_[1])
+        used.append(out)
+    if not used[0] or not used[1]:
+        return None
+    if not any(n.get("k") in ("Bin", "OpCall") and n.get("op") in ("==", "!=") for n in ir.walk(f["body"])) and \
+            not any(n.get("k") in ("Call", "MCall") for n in ir.walk(f["body"])):
+        return None
+    missing = [m for m in fields if m not in used[0] or m not in used[1]]
+    return ts[0], missing, sorted(used[0] & used[1])
+
+
+def check_memberwise_equality(run, rule):
+    """R18.7: where the tools decide that two values read from different inputs are "the same" (to share one entry of the output)
+    by comparing them member by member, every data member takes part - else inputs that differ only in the member left out are
+    merged into one and the output states for one of them what only the other said."""
+    facts = run.facts
+    bad = memberwise_equality(facts, facts.control("r18_6_same_params", rule))
+    good = memberwise_equality(facts, facts.control("r18_6_same_params_all", rule))
+    if not bad or bad[1] != ["c"] or not good or good[1]:
+        raise AnalysisBroken(rule, "positive control verif_rc::r18_6_same_params: expected member c reported missing and the full comparison accepted, found %s / %s" % (bad, good))
+    n = 0
+    for f in sorted(list(facts.functions.values()) + list(getattr(facts, "absorbed", {}).values()), key=lambda x: x["key"]):
+        if "/src/bin/" not in (f.get("file") or ""):
+            continue
+        r = memberwise_equality(facts, f)
+        if r is None:
+            continue
+        n += 1
+        recn, missing, compared = r
+        run.ob(rule, "%s:compares-every-member" % f["qn"].split("::")[-1], not missing, f, f["line"],
+               "compares all %d members of %s" % (len(compared), recn.split("::")[-1]) if not missing else
+               "%s treats two %s as the same without comparing member(s) %s: values that differ only there are merged into one entry, and the "
+               "output states for one input what only the other said" % (f["qn"].split("::")[-1], recn.split("::")[-1], missing))
+    run.info["memberwise_equalities_in_tools"] = n
